@@ -180,7 +180,7 @@ class Scenario:
     def add_cand(s, addr, val, tid):
         """val: concrete int or 'TOP' (unknown symbolic data); tid = writer thread"""
         c = s.cand.setdefault(addr, {})
-        if val != 'TOP' and val not in c and len(c) >= 12:
+        if val != 'TOP' and val not in c and len(c) >= (12 if s.width_of.get(addr, 8) == 8 else 5):
             val = 'TOP'            # widening: counters and the like would otherwise grow by one value per fixpoint pass
         w = c.setdefault(val, set())
         if tid not in w:
